@@ -69,6 +69,7 @@ enum
     CL_PREEMPTED,
     CL_F32,
     CL_FAILED_FRAME_CALL,
+    CL_FINE,
 };
 
 const VhSpec kSpec = {
@@ -79,7 +80,7 @@ const VhSpec kSpec = {
     { "C17", "C18", nullptr },
     { "camera_random", "camera_sin", "camera_empty", "binning_gt1", "binning_rejected", "multibyte_type_odd_width", "shape_clamped",
       "frame_delivered", "two_configurations", "two_runs", "trigger_mode", "stop_while_frame_call_blocked", "triggers_interleaved_with_frames",
-      "lockstep_trigger_frame", "frame_call_after_stop", "gap_in_hardware_ids", "pct_schedule", "preemptions", "f32", "failed_frame_call_then_restart", nullptr },
+      "lockstep_trigger_frame", "frame_call_after_stop", "gap_in_hardware_ids", "pct_schedule", "preemptions", "f32", "failed_frame_call_then_restart", "edge_preemptions", nullptr },
     { "C17 non-trivial: >=1 frame fetched AND (binning > 1 or a multi-byte type with an odd width), or >=2 accepted configurations on one camera",
       "C18 non-trivial: >=2 runs on one camera, or a stop issued while a frame call was blocked, or >=3 triggers interleaved with frame calls",
       nullptr },
@@ -649,6 +650,7 @@ vh_run(const VhTok* tape, size_t n, VhReport* rep)
                 x.sched.mode = vsim::TapeSched::PCT;
                 x.c.cls(CL_PCT);
             }
+            x.sched.arm_fine(t.a, t.b, t.c, t.d);
             uint16_t w[3] = { t.b, t.c, t.d };
             for (uint16_t v : w) {
                 if (x.sched.mode == vsim::TapeSched::PCT && x.sched.change_points.size() < 4)
@@ -707,6 +709,8 @@ vh_run(const VhTok* tape, size_t n, VhReport* rep)
         vsim::RunResult rr = vsim::run(x.sched, 60000, [&]() { return (x.doneA && x.doneB) || x.c.ended; }, &blocked);
         if (x.sched.preemptions)
             x.c.cls(CL_PREEMPTED);
+        if (vsim::edge_preemptions())
+            x.c.cls(CL_FINE);
         if (!x.c.ended) {
             if (rr == vsim::RUN_DEADLOCK || rr == vsim::RUN_QUIET) {
                 const vsim::Info& bi = vsim::info(blocked >= 0 ? blocked : 0);
